@@ -108,7 +108,9 @@ fn run_program(f: Fam, game: Game, text: &str, tag: &str, stats: &mut Stats) {
 // generators
 
 struct G<'a> { rng: &'a mut Rng, fam: Fam, game: Game, regs: bool, jumps: bool, diffs: bool, strings: bool,
-               ints: Vec<String>, floats: Vec<String>, labels_defined: Vec<String>, labels_wanted: Vec<String>, nlabel: usize, nvar: usize, consts: Vec<(String, bool)> }
+               ints: Vec<String>, floats: Vec<String>, labels_defined: Vec<String>, labels_wanted: Vec<String>, nlabel: usize, nvar: usize, consts: Vec<(String, bool)>,
+               /// named parameters of the sub whose body is generated next
+               pre_ints: Vec<String>, pre_floats: Vec<String> }
 
 impl<'a> G<'a> {
     // MSG opcodes are stored in one byte
@@ -183,8 +185,12 @@ impl<'a> G<'a> {
         }
     }
     fn body(&mut self) -> String {
-        self.ints.clear(); self.floats.clear(); self.labels_defined.clear(); self.labels_wanted.clear(); self.nvar = 0;
+        self.ints = std::mem::take(&mut self.pre_ints); self.floats = std::mem::take(&mut self.pre_floats);
+        self.labels_defined.clear(); self.labels_wanted.clear(); self.nvar = 0;
         let mut out = String::new();
+        // every named parameter is used at least once
+        for v in self.ints.clone() { writeln!(out, "    ins_{}({}, {});", self.op_i(), v, self.rng.range(0, 9)).unwrap(); }
+        for v in self.floats.clone() { writeln!(out, "    ins_{}({}, {});", self.op_f(), self.rng.range(0, 9), v).unwrap(); }
         let n = 2 + self.rng.below(9) as usize;
         for _ in 0..n { self.stmt(0, &mut out); }
         // define the labels that jumps asked for, at the very end (a label at the closing brace) or before a last instruction
@@ -208,12 +214,32 @@ fn program(fam: Fam, game: Game, rng: &mut Rng) -> String {
     let jumps = matches!(fam, Fam::Anm | Fam::Std | Fam::Olde) && !(fam == Fam::Anm && game == Game::Th06 && false);
     let mut text = String::from("#pragma mapfile \"c18.map\"\n");
     let mut consts = vec![];
-    let nconst = rng.below(4) as usize;
-    for k in 0..nconst {
-        if rng.chance(2, 3) { writeln!(text, "const int C{} = {} + {};", k, rng.range(-100, 100), rng.range(0, 1000)).unwrap(); consts.push((format!("C{}", k), false)); }
-        else { writeln!(text, "const float C{} = {}.25;", k, rng.range(0, 90)).unwrap(); consts.push((format!("C{}", k), true)); }
+    // consts that refer to each other, declared in an order unrelated to the order they depend on each other
+    // (forward references, references through sigils and casts)
+    let nconst = rng.below(6) as usize;
+    let is_float: Vec<bool> = (0..nconst).map(|_| rng.chance(1, 3)).collect();
+    let mut dep: Vec<usize> = (0..nconst).collect();            // dep[p] may refer to dep[q] for q < p
+    for k in (1..nconst).rev() { let j = rng.below(k as u64 + 1) as usize; dep.swap(k, j); }
+    let mut exprs = vec![String::new(); nconst];
+    for p in 0..nconst {
+        let k = dep[p];
+        let target = if p > 0 && rng.chance(3, 4) { Some(dep[rng.below(p as u64) as usize]) } else { None };
+        exprs[k] = match (is_float[k], target) {
+            (false, None) => format!("{} + {}", rng.range(-100, 100), rng.range(0, 1000)),
+            (true, None) => format!("{}.25", rng.range(0, 90)),
+            (false, Some(j)) if !is_float[j] => match rng.below(3) { 0 => format!("C{} + {}", j, rng.range(1, 50)), 1 => format!("$C{} + {}", j, rng.range(1, 50)), _ => format!("C{} * 2", j) },
+            (false, Some(j)) => format!("int(C{}) + {}", j, rng.range(1, 50)),
+            (true, Some(j)) if is_float[j] => if rng.chance(1, 2) { format!("C{} + 0.5", j) } else { format!("%C{} + 0.5", j) },
+            (true, Some(j)) => format!("float(C{}) + 0.25", j),
+        };
     }
-    let mut g = G { rng, fam, game, regs, jumps, diffs: fam == Fam::Olde, strings: fam == Fam::Msg, ints: vec![], floats: vec![], labels_defined: vec![], labels_wanted: vec![], nlabel: 0, nvar: 0, consts };
+    let mut decl: Vec<usize> = (0..nconst).collect();
+    for k in (1..nconst).rev() { let j = rng.below(k as u64 + 1) as usize; decl.swap(k, j); }
+    for &k in &decl {
+        writeln!(text, "const {} C{} = {};", if is_float[k] { "float" } else { "int" }, k, exprs[k]).unwrap();
+        consts.push((format!("C{}", k), is_float[k]));
+    }
+    let mut g = G { rng, fam, game, regs, jumps, diffs: fam == Fam::Olde, strings: fam == Fam::Msg, ints: vec![], floats: vec![], labels_defined: vec![], labels_wanted: vec![], nlabel: 0, nvar: 0, consts, pre_ints: vec![], pre_floats: vec![] };
     match fam {
         Fam::Anm => {
             text.push_str("entry { path: \"a.png\", has_data: false, img_width: 16, img_height: 16, img_format: 1, sprites: { sp0: {x: 0.0, y: 0.0, w: 4.0, h: 4.0} } }\n");
@@ -240,6 +266,25 @@ fn program(fam: Fam, game: Game, rng: &mut Rng) -> String {
             g.regs = true; g.jumps = true; g.diffs = true;
             let n = 1 + g.rng.below(2);
             for k in 0..n { let b = g.body(); writeln!(text, "void sub{}() {{\n{}}}", k, b).unwrap(); }
+            // subs with parameters: named and unnamed ones of both types in any order (at most 3 per type)
+            let nps = g.rng.below(3);
+            for k in n..n + nps {
+                let (mut ni, mut nf) = (0, 0);
+                let mut params = vec![];
+                for q in 0..1 + g.rng.below(5) {
+                    let fl = g.rng.chance(1, 3);
+                    if (fl && nf == 3) || (!fl && ni == 3) { continue; }
+                    if fl { nf += 1; } else { ni += 1; }
+                    let ty = if fl { "float" } else { "int" };
+                    if g.rng.chance(2, 3) {
+                        let name = format!("pa{}", q);
+                        params.push(format!("{} {}", ty, name));
+                        if fl { g.pre_floats.push(name); } else { g.pre_ints.push(name); }
+                    } else { params.push(ty.to_string()); }
+                }
+                let b = g.body();
+                writeln!(text, "void sub{}({}) {{\n{}}}", k, params.join(", "), b).unwrap();
+            }
         }
         Fam::Stack => {
             text.push_str("meta { ecli: [], anim: [] }\n");
